@@ -14,7 +14,7 @@ from ..model_cloud import ModelCloud, ModelSmartHome, creds_for
 ID = "C19"
 LEVEL = "exploration"
 SHARDS = {"quick": 8, "thorough": 16}
-RULE = ("token leg (optionally the session is renewed once or twice on the same object - login(force=True) - and the token asked for again; every case runs against the NetHome Plus model cloud or against a model of the MSmartHome proxy API: JSON body, HMAC-SHA256 sign header over iot key + body + random, password and iampwd derivations, access-token header; optionally 2..5 further get_token calls for other ids run concurrently on the same cloud object and each must receive its own entry): account/password of printable ASCII (incl. + & = % space) or a built-in region, a 48-bit device id, a token "
+RULE = ("concurrent-login leg: 2..3 coroutines call login() on one cloud object at (nearly) the same time while one login endpoint fails at first (API error, 503, connect error, 1..3 timeouts): a login() that returns normally is followed by a working get_token, every other outcome is a CloudError, the model cloud sees no unverifiable request. token leg (optionally the session is renewed once or twice on the same object - login(force=True) - and the token asked for again; every case runs against the NetHome Plus model cloud or against a model of the MSmartHome proxy API: JSON body, HMAC-SHA256 sign header over iot key + body + random, password and iampwd derivations, access-token header; optionally 2..5 further get_token calls for other ids run concurrently on the same cloud object and each must receive its own entry): account/password of printable ASCII (incl. + & = % space) or a built-in region, a 48-bit device id, a token "
         "list in which the matching entry is absent / first / middle / last among near-miss ids (prefix, suffix, case-flipped, one "
         "digit off), response field order shuffled, and a fault script per endpoint from {ok, timeout, HTTP 500/404, connect "
         "error, API error code}* up to and beyond the retry budget. Oracle: a model cloud that recomputes the signature from the "
@@ -277,7 +277,61 @@ def check_discovery(case: dict):
     return None
 
 
+def check_colog(case: dict):
+    """Several coroutines share one cloud object and log in at the same time while the login endpoints misbehave for the first
+    attempts.  Whoever's login() returns normally has a session the server issued: its get_token works; everybody else gets a
+    CloudError.  (Nothing is assumed about how many logins reach the server.)"""
+    from msmart.cloud import CloudError, NetHomePlusCloud, SmartHomeCloud
+    smarthome = case.get("cloud") == "smarthome"
+    Cloud = SmartHomeCloud if smarthome else NetHomePlusCloud
+    LOGIN = "/mj/user/login" if smarthome else "/v1/user/login"
+    mc = (ModelSmartHome if smarthome else ModelCloud)(dict(Cloud.CLOUD_CREDENTIALS.values()))
+    mc.latency = case.get("latency", 0.05)
+    mc.fault_script = {(LOGIN if k == "/v1/user/login" else k): list(v) for k, v in case.get("faults", {}).items()}
+    res = {"workers": []}
+
+    async def main(loop):
+        import asyncio
+        cloud = Cloud(case.get("region", "US"), get_async_client=mc.client_factory())
+
+        async def worker(i):
+            await asyncio.sleep(case.get("stagger", 0.0) * i)
+            rec = {"i": i}
+            try:
+                await cloud.login()
+                rec["login"] = "ok"
+            except CloudError as e:
+                rec["login"] = "clouderror"
+                return rec
+            except BaseException as e:
+                rec["login"] = e
+                return rec
+            u = rc.udpid((case["id"] + i).to_bytes(6, "little")).hex()
+            try:
+                rec["token"] = tuple(await cloud.get_token(u))
+                rec["want"] = creds_for(u)
+            except BaseException as e:
+                rec["token_exc"] = e
+            return rec
+        res["workers"] = await asyncio.gather(*[worker(i) for i in range(case.get("workers", 2))])
+
+    vloop.run(main)
+    for rec in res["workers"]:
+        if isinstance(rec.get("login"), BaseException):
+            return (f"colog/escapes/{type(rec['login']).__name__}", f"login() of worker {rec['i']} raised {rec['login']!r}, not a CloudError (faults {case.get('faults')})")
+        if rec.get("login") == "ok":
+            if "token_exc" in rec:
+                return ("colog/session", f"login() of worker {rec['i']} returned normally but its get_token failed: {rec['token_exc']!r}; server complaints {mc.errors[:2]} (faults {case.get('faults')})")
+            if rec["token"] != rec["want"]:
+                return ("colog/token", f"worker {rec['i']} got {rec['token']}")
+    if mc.errors:
+        return ("contract/" + mc.errors[0].split(":")[0].split("/")[-1] + "/" + mc.errors[0].split(": ")[1].split()[0], f"model cloud rejected a request: {mc.errors[:3]}")
+    return None
+
+
 def check_case(case: dict):
+    if case.get("leg") == "colog":
+        return check_colog(case)
     return check_discovery(case) if case.get("leg") == "discovery" else check_token(case)
 
 
@@ -287,7 +341,9 @@ def replay(ctx, case):
 
 def _run_one(ctx, case):
     import json
-    if case.get("leg") == "discovery":
+    if case.get("leg") == "colog":
+        nt, cls = True, "concurrent-logins/" + case.get("cloud", "nethome")
+    elif case.get("leg") == "discovery":
         nt = case["endian"] == "big" or bool(case.get("strict"))
         cls = "discovery/" + case["endian"]
     else:
@@ -339,6 +395,18 @@ def run(ctx) -> None:
                     case = {"id": 0x00AABBCCDD00 + f, "shuffle": 0, "tokenlist": None, "faults": {path: list(seq)}, "cloud": ["nethome", "smarthome"][f % 2]}
                     ctx.check(case, lambda c: _run_one(ctx, c))
     ctx.sweep("fault sequences (timeouts mixed with gateway errors) per endpoint", f, True)
+    # several coroutines log in through one cloud object at the same time while the login endpoints fail at first
+    cl = 0
+    for cloud in ("nethome", "smarthome"):
+        for path in ("/v1/user/login/id/get", "/v1/user/login"):
+            for seq in (["api:3101"], ["http503"], ["timeout", "timeout", "timeout"], ["connect"], ["http500k"], ["timeout"], []):
+                for workers, stagger in ((2, 0.0), (2, 0.02), (3, 0.0), (2, 0.3)):
+                    cl += 1
+                    if ctx.mine(cl):
+                        case = {"leg": "colog", "id": 0x00C0FFEE0000 + cl, "cloud": cloud, "faults": {path: list(seq)} if seq else {}, "workers": workers, "stagger": stagger,
+                                "latency": [0.05, 0.2][cl % 2]}
+                        ctx.check(case, lambda c: _run_one(ctx, c))
+    ctx.sweep("concurrent logins on one cloud object x failing login endpoint x cloud flavour", cl, True)
     ctx.hyp("token", token_cases, lambda c: _run_one(ctx, c), ctx.n(3200, 160000))
     disc_cases = st.fixed_dictionaries({"leg": st.just("discovery"), "id": gens.device_ids(48).filter(lambda i: i.to_bytes(6, "little") != i.to_bytes(6, "big")),
                                         "endian": st.sampled_from(["little", "big"]), "port": st.sampled_from([6444, 6444, 7000])},
